@@ -1,7 +1,7 @@
 """Input streams for the v2 parser, the TLV iterator and the auto-detecting parser (DESIGN 5.3).
 Every stream function has the signature f(tier, rng, k, n) and yields (stream, bytes-expression, meta);
 shard k of n enumerates only its share of a deterministic stream."""
-from .lib import Rng, SIG, FAM_SIZE, be16, v2_fixed, enc_tlv, expr, fill, hx, special_ip6, special_ip4, class_pairs
+from .lib import Rng, SIG, FAM_SIZE, be16, v2_fixed, enc_tlv, expr, fill, hx, special_ip6, special_ip4, class_pairs, crc32c
 
 LENGTH_TABLE = [0, 11, 12, 13, 35, 36, 37, 215, 216, 217, 255, 256, 257, 65535]
 VALID_VC = [0x20, 0x21]
@@ -233,6 +233,48 @@ def valid_header(rng, fam=None, big=False):
     return hx(v2_fixed(vc, fp, declared) + addr + tl), {"vc": vc, "fp": fp, "declared": declared, "fam": fam}
 
 
+def checksummed_header(rng, fam=None):
+    """a well-formed header whose TLV section carries a PP2_TYPE_CRC32C TLV with the *correct* checksum (CRC-32C of the
+    whole header with the field zeroed, PROXY protocol 2.2.3) -- what HAProxy's `send-proxy-v2-ssl crc32c` puts on the wire.
+    A correct 32-bit checksum is not something random, zero or dictionary values ever produce."""
+    if fam is None:
+        fam = rng.below(4)
+    vc = rng.choice(VALID_VC)
+    fp = fam * 16 + rng.below(3)
+    addr = rng.bytes(FAM_SIZE[fam])
+    def small():
+        return enc_tlv(rng.choice([1, 2, 4, 5, 0x30, rng.below(256)]), rng.choice([b"", b"h2", b"example.com", rng.bytes(rng.below(6))]))
+    before = b"".join(small() for _ in range(rng.below(3)))
+    after = b"".join(small() for _ in range(rng.below(3)))
+    body = addr + before + enc_tlv(3, bytes(4)) + after
+    h = bytearray(v2_fixed(vc, fp, len(body)) + body)
+    at = 16 + len(addr) + len(before) + 3
+    c = crc32c(bytes(h))
+    how = rng.below(8)
+    if how == 0:
+        c ^= 1 << rng.below(32)                 # off by one bit: must behave like any other value
+    h[at:at + 4] = c.to_bytes(4, "little" if how == 1 else "big")
+    return bytes(h), {"vc": vc, "fp": fp, "declared": len(body), "fam": fam}
+
+
+def embedded_header(rng):
+    """a well-formed header whose payload (address bytes of the unspecified family, or a TLV value) contains another
+    complete well-formed v2 header, or a v1 line: a parser must not re-synchronise inside a payload"""
+    inner_fam = rng.below(3)
+    inner_addr = rng.bytes(FAM_SIZE[inner_fam])
+    inner = rng.choice([v2_fixed(0x21, inner_fam * 16 + 1, len(inner_addr)) + inner_addr, v2_fixed(0x20, 0, 0),
+                        b"PROXY TCP4 1.2.3.4 5.6.7.8 1 2\r\n", b"PROXY UNKNOWN\r\n"])
+    fam = rng.below(4)
+    addr = rng.bytes(FAM_SIZE[fam])
+    if fam == 0 and rng.chance(1, 2):
+        body = rng.bytes(rng.below(4)) + inner + rng.bytes(rng.below(4))
+    else:
+        body = addr + (enc_tlv(4, rng.bytes(rng.below(3))) if rng.chance(1, 2) else b"") + enc_tlv(rng.choice([4, 2, 0xE0]), inner + rng.bytes(rng.below(3)))
+    vc = rng.choice(VALID_VC)
+    fp = fam * 16 + rng.below(3)
+    return v2_fixed(vc, fp, len(body)) + body, {"vc": vc, "fp": fp, "declared": len(body), "fam": fam}
+
+
 def valid_headers(tier, rng, k, n):
     """valid-heavy stream: random well-formed headers (all families), some with trailers"""
     rng = rng.fork("valid%d" % k)
@@ -248,6 +290,9 @@ def valid_headers(tier, rng, k, n):
             yield ("v2-valid", hx(v2_fixed(vc, fp, len(addr) + len(tl)) + addr + tl),
                    {"vc": vc, "fp": fp, "declared": len(addr) + len(tl), "fam": size})
     count = (20000 if tier == "quick" else 400000) // n
+    for i in range(count // 20):
+        b, info = checksummed_header(rng) if i % 2 else embedded_header(rng)
+        yield ("v2-valid", hx(b + (rng.bytes(rng.below(6)) if rng.chance(1, 3) else b"")), info)
     for i in range(count):
         big = rng.chance(1, 400)
         e, info = valid_header(rng, big=big)
@@ -261,8 +306,13 @@ def truncations(tier, rng, k, n):
     rng = rng.fork("trunc%d" % k)
     count = (600 if tier == "quick" else 8000) // n
     for i in range(count):
-        e, info = valid_header(rng)
-        b = bytes.fromhex(e) if e != "-" else b""
+        if i % 5 == 3:
+            b, info = checksummed_header(rng)
+        elif i % 5 == 4:
+            b, info = embedded_header(rng)
+        else:
+            e, info = valid_header(rng)
+            b = bytes.fromhex(e) if e != "-" else b""
         L = len(b)
         cuts = list(range(0, min(L, 300))) + list(range(300, L, 251))
         for c in cuts:
@@ -333,6 +383,10 @@ def header_tlvs(tier, rng, k, n):
     count = (4000 if tier == "quick" else 60000) // n
     for i in range(count):
         fam = rng.below(4)
+        if i % 16 == 7:
+            b, info = checksummed_header(rng, fam=fam)
+            yield ("v2-header-tlvs", hx(b), info)
+            continue
         e, info = valid_header(rng, fam=fam, big=rng.chance(1, 300))
         yield ("v2-header-tlvs", e, info)
     idx = 0
